@@ -54,7 +54,10 @@ class NodeParser(PushParser):
         handler = self.handler(clazz=clazz, parser=self)
 
         try:
-            ns_map = self.ns_map if ns_map is None else ns_map
+            if ns_map is None:
+                # Record the prefixes of this document only
+                ns_map = self.ns_map = {}
+
             result = handler.parse(source, ns_map)
         except SyntaxError as e:
             raise ParserError(e)
